@@ -128,6 +128,32 @@ def builtin_model(pick, permuted: bool):
             md["megacomplex"]["m_second"] = {"type": "decay-parallel", "compartments": second, "rates": ["k2.1", "k2.2"]}
         mlist.append("m_second")
         par["ms"] = [["1", 1.0, {"vary": False}], ["2", 3.0, {"vary": False}]]
+    if pick.get("two"):
+        # second dataset: its own megacomplex with the labels declared in the permuted order (identity in the reference model)
+        import copy
+        perm2 = [p - 1 for p in pick["perm"]] if permuted else list(range(n))
+        m2 = copy.deepcopy(md["megacomplex"][main])
+        if t == "decay-parallel":
+            m2["compartments"] = [comps[i] for i in perm2]
+            m2["rates"] = [f"k.{i + 1}" for i in perm2]
+        elif t in ("damped-oscillation", "pfid"):
+            m2["labels"] = [labs[i] for i in perm2]
+            m2["frequencies"] = [f"osc.f{i + 1}" for i in perm2]
+            m2["rates"] = [f"osc.r{i + 1}" for i in perm2]
+        # first dataset always identity
+        if t == "decay-parallel":
+            md["megacomplex"][main] = {"type": "decay-parallel", "compartments": comps, "rates": [f"k.{i + 1}" for i in range(n)]}
+        elif t in ("damped-oscillation", "pfid"):
+            md["megacomplex"][main] = {"type": t, "labels": labs, "frequencies": [f"osc.f{i + 1}" for i in range(n)], "rates": [f"osc.r{i + 1}" for i in range(n)]}
+        md["megacomplex"]["m_main2"] = m2
+        md["dataset"]["ds2"] = {"megacomplex": ["m_main2"]}
+        if t == "decay":
+            md["initial_concentration"]["j2"] = {"compartments": [comps[i] for i in perm2], "parameters": [f"j.{i + 1}" for i in perm2]}
+            md["initial_concentration"]["j"] = {"compartments": comps, "parameters": [f"j.{i + 1}" for i in range(n)]}
+            md["dataset"]["ds2"]["megacomplex"] = [main]
+            md["dataset"]["ds2"]["initial_concentration"] = "j2"
+            del md["megacomplex"]["m_main2"]
+        md["dataset_groups"] = {"default": {"link_clp": True}}
     scales = ["ms.1", "ms.2"][: len(mlist)]
     if permuted and pick["revmc"]:
         mlist = mlist[::-1]
@@ -138,7 +164,8 @@ def builtin_model(pick, permuted: bool):
     if pick["irf"] and t != "spectral":
         md["irf"] = {"irf1": {"type": "gaussian", "center": "irf.c", "width": "irf.w"}}
         par["irf"] = [["c", 0.5], ["w", 0.2]]
-        md["dataset"]["ds"]["irf"] = "irf1"
+        for dsl in md["dataset"]:
+            md["dataset"][dsl]["irf"] = "irf1"
     return md, par
 
 
@@ -159,8 +186,8 @@ def compare_builtin(chk: Check, pick):
     from glotaran.simulation import simulate
     M = Model.create_class_from_megacomplexes([DecayMegacomplex, DecayParallelMegacomplex, BaselineMegacomplex, DampedOscillationMegacomplex, PFIDMegacomplex, SpectralMegacomplex])
     t = pick["type"]
-    key = f"LabelPerms[{t}]: irf={pick['irf']} partner={pick['partner']}"
-    desc = f"{t} n={pick['n']} perm={pick['perm']} irf={pick['irf']} partner={pick['partner']} revmc={pick['revmc']}"
+    key = f"LabelPerms[{t}]: irf={pick['irf']} partner={pick['partner']}" + (" two-linked-datasets" if pick.get("two") else "")
+    desc = f"{t} n={pick['n']} perm={pick['perm']} irf={pick['irf']} partner={pick['partner']} revmc={pick['revmc']} two={pick.get('two', False)}"
     rep = {"engine": "c06-builtin", "pick": pick}
     chk.evaluations += 1
     time = np.round(np.arange(-0.5 if pick["irf"] else 0.0, 5.0, 0.25), 10)
@@ -184,11 +211,13 @@ def compare_builtin(chk: Check, pick):
             labs = MatrixProvider.calculate_dataset_matrix(dm, coords[gdim], coords[mdim]).clp_labels
             rs = np.random.RandomState(17)
             clp = xr.DataArray(0.5 + rs.random_sample((coords[gdim].size, len(labs))), coords=[(gdim, coords[gdim]), ("clp_label", labs)])
-            data = simulate(model0, "ds", params0, coords, clp, noise=True, noise_std_dev=0.01, noise_seed=3)
+            datasets = {"ds": simulate(model0, "ds", params0, coords, clp, noise=True, noise_std_dev=0.01, noise_seed=3)}
+            if pick.get("two"):
+                datasets["ds2"] = simulate(model0, "ds2", params0, coords, clp * 0.5 + 0.1, noise=True, noise_std_dev=0.01, noise_seed=4)
             for permuted in (False, True):
                 md, par = builtin_model(pick, permuted)
                 model, params = M(**md), Parameters.from_dict(par)
-                scheme = Scheme(model=model, parameters=params, data={"ds": data}, maximum_number_function_evaluations=1)
+                scheme = Scheme(model=model, parameters=params, data=datasets, maximum_number_function_evaluations=1)
                 results.append(optimize(scheme, verbose=False, raise_exception=True))
         except Exception as ex:  # noqa: BLE001
             chk.violation(key + f" raises {type(ex).__name__}", f"{desc}: {type(ex).__name__}: {str(ex)[:300]}", rep)
@@ -197,22 +226,23 @@ def compare_builtin(chk: Check, pick):
     chk.traces += 1
     if abs(a.cost - b.cost) > 1e-9 * max(1e-300, abs(a.cost)):
         chk.violation(key + " objective", f"{desc}: objective changes under permutation of the declaration order: cost {a.cost!r} vs {b.cost!r}", rep)
-    da, db = a.data["ds"], b.data["ds"]
-    for var in LABELLED_VARS:
-        if (var in da) != (var in db):
-            chk.violation(key + f" {var} presence", f"{desc}: variable {var} present in only one of the two results", rep)
-            continue
-        if var not in da:
-            continue
-        x, y = da[var], db[var]
-        try:
-            y2 = y.reindex_like(x)      # reorders every labelled coordinate by label
-        except Exception as ex:  # noqa: BLE001
-            chk.violation(key + f" {var} labels", f"{desc}: {var}: cannot align by label: {ex}", rep)
-            continue
-        if x.shape != y2.shape or not np.allclose(x.values, y2.values, rtol=1e-9, atol=1e-10, equal_nan=False):
-            diff = float(np.nanmax(np.abs(x.values - y2.values))) if x.shape == y2.shape else float("nan")
-            chk.violation(key + f" {var}", f"{desc}: {var} selected by label differs between identity and permuted declaration order (max diff {diff})", rep)
+    for dslabel in a.data:
+      da, db = a.data[dslabel], b.data[dslabel]
+      for var in LABELLED_VARS:
+          if (var in da) != (var in db):
+              chk.violation(key + f" {var} presence", f"{desc}: variable {var} present in only one of the two results", rep)
+              continue
+          if var not in da:
+              continue
+          x, y = da[var], db[var]
+          try:
+              y2 = y.reindex_like(x)      # reorders every labelled coordinate by label
+          except Exception as ex:  # noqa: BLE001
+              chk.violation(key + f" {var} labels", f"{desc}: {var}: cannot align by label: {ex}", rep)
+              continue
+          if x.shape != y2.shape or not np.allclose(x.values, y2.values, rtol=1e-9, atol=1e-10, equal_nan=False):
+              diff = float(np.nanmax(np.abs(x.values - y2.values))) if x.shape == y2.shape else float("nan")
+              chk.violation(key + f" {var}", f"{desc}: {var} selected by label differs between identity and permuted declaration order (max diff {diff})", rep)
     chk.nontriv(json.dumps(pick, sort_keys=True))
 
 
@@ -272,10 +302,10 @@ def run(tier: str, replay=None) -> int:
         # every (type, irf, partner) cell at least twice
         cells = {}
         for p in picks:
-            cells.setdefault((p["type"], p["irf"], p["partner"]), []).append(p)
+            cells.setdefault((p["type"], p["irf"], p["partner"], p.get("two", False)), []).append(p)
         sel = []
         for lst in cells.values():
-            sel += rng.sample(lst, min(3, len(lst)))
+            sel += rng.sample(lst, min(2, len(lst)))
         chk.exhaustive = False
     else:
         sel = picks
